@@ -562,3 +562,80 @@ func init() {
 			return obs
 		}})
 }
+
+// TEMPLATE.literal-global-only — C17 (and the scope half of C07): a symbol
+// written literally in a quasiquote template is looked up where the macro is
+// EXPANDED.  Parameters and locals of the macro body are not in scope there, so
+// the analyzer must not record the literal as a reference to one of them: the
+// minifier renames every recorded reference together with its symbol, and a
+// renamed literal binds (or reads) a different name in the expansion.
+func init() {
+	register(&Rule{ID: "TEMPLATE.literal-global-only", Floor: 1,
+		Doc: "in the analyzer's resolveTemplateSymbol a reference is recorded (Result.References appended, Symbol.References counted) only over an edge that entails the resolved symbol's scope is the global scope: a template literal never counts as a use of a macro-body parameter or local of the same spelling",
+		Run: func(c *Ctx) []Obligation {
+			const rid = "TEMPLATE.literal-global-only"
+			fn, fd, pkg := c.LookupFunc("analysis.(*analyzer).resolveTemplateSymbol")
+			if fn == nil {
+				return []Obligation{anchorMissing(rid, "analysis.(*analyzer).resolveTemplateSymbol")}
+			}
+			u := FuncUnit{fn, fd, pkg}
+			info := pkg.TypesInfo
+			glob := c.LookupConst("analysis.ScopeGlobal")
+			if glob == nil {
+				return []Obligation{anchorMissing(rid, "analysis.ScopeGlobal")}
+			}
+			fc := c.cfgOf(u, nil)
+			cls := func(e ast.Expr) (string, bool) {
+				be, ok := ast.Unparen(e).(*ast.BinaryExpr)
+				if !ok || be.Op != token.EQL && be.Op != token.NEQ {
+					return "", false
+				}
+				isKind := func(x ast.Expr) bool {
+					se, ok := ast.Unparen(x).(*ast.SelectorExpr)
+					if !ok || se.Sel.Name != "Kind" {
+						return false
+					}
+					in, ok := ast.Unparen(se.X).(*ast.SelectorExpr)
+					return ok && in.Sel.Name == "Scope"
+				}
+				isGlob := func(x ast.Expr) bool { return identObjOrSel(info, x) == glob }
+				if isKind(be.X) && isGlob(be.Y) || isKind(be.Y) && isGlob(be.X) {
+					return "global", be.Op == token.NEQ
+				}
+				return "", false
+			}
+			cut := fc.edgesEntailing(cls, func(v map[string]bool) bool { return v["$has:global"] && v["global"] })
+			var obs []Obligation
+			ord := &ordinal{}
+			for _, b := range fc.G.Blocks {
+				if !fc.Live(b) {
+					continue
+				}
+				for _, n := range b.Nodes {
+					rec := ""
+					switch x := n.(type) {
+					case *ast.AssignStmt:
+						for _, l := range x.Lhs {
+							if se, ok := ast.Unparen(l).(*ast.SelectorExpr); ok && se.Sel.Name == "References" {
+								rec = "append to " + types.ExprString(l)
+							}
+						}
+					case *ast.IncDecStmt:
+						if se, ok := ast.Unparen(x.X).(*ast.SelectorExpr); ok && se.Sel.Name == "References" {
+							rec = "count " + types.ExprString(x.X)
+						}
+					}
+					if rec == "" {
+						continue
+					}
+					construct := ord.next(rec)
+					if fc.reachableAvoiding(b, cut) {
+						obs = append(obs, mkOb(c, rid, u, construct, n, Violated, "a template literal is recorded as a reference to whatever the macro body's scope resolves it to, including a parameter or a let-bound local of the same spelling: the minifier renames the literal with that local, and the expansion then binds or reads the wrong name at the call site", true))
+					} else {
+						obs = append(obs, mkOb(c, rid, u, construct, n, Proved, "only for a symbol of the global scope", true))
+					}
+				}
+			}
+			return obs
+		}})
+}
